@@ -76,6 +76,35 @@ def stage1(nw=10):
     print("stage1:", sum(1 for v in res.values() if v == "survived"), "survived of", len(res))
 
 
+PRIO = [  # (file regex, function regex, properties to try first)
+    (r"ip/sets", r"", ["C06", "C07", "C12"]), (r"ip/glob", r"", ["C17", "C05"]), (r"ip/nmap", r"", ["C17"]),
+    (r"ip/iana|eui/ieee", r"", ["C19"]), (r"rfc1924", r"", ["C15"]), (r"subnet_splitter", r"", ["C20"]),
+    (r"fbsocket|strategy/ipv[46]", r"bits|bin|words|packed|arpa", ["C15"]), (r"fbsocket|strategy/ipv[46]", r"", ["C01", "C03", "C15"]),
+    (r"strategy/eui|eui/__init__", r"OUI|IAB|info", ["C19", "C08"]), (r"strategy/eui|eui/__init__", r"", ["C08", "C15", "C12"]),
+    (r"strategy/__init__", r"", ["C15", "C08"]),
+    (r"ip/__init__", r"is_ipv4|\.ipv[46]$", ["C16"]), (r"ip/__init__", r"\.is_|netmask_bits", ["C18", "C02"]),
+    (r"ip/__init__", r"__(i?add|i?sub|radd|rsub|or|and|xor|lshift|rshift|int|index|hex|bool|nonzero)__|IPAddress.__init__", ["C14", "C01"]),
+    (r"ip/__init__", r"sort_key|\.key|__(eq|ne|lt|le|gt|ge|hash|getstate|setstate|reduce)__", ["C12"]),
+    (r"ip/__init__", r"subnet|supernet|next|previous|iter_hosts|IPNetwork.__i(add|sub)__", ["C11"]),
+    (r"ip/__init__", r"__getitem__|__len__|__iter__|iter_iprange|\.size|iter_unique", ["C10"]),
+    (r"ip/__init__", r"__contains__|matching_cidr", ["C04"]), (r"ip/__init__", r"cidr_merge|iprange_to_cidrs|\.cidrs", ["C05"]),
+    (r"ip/__init__", r"cidr_partition|cidr_exclude", ["C09"]), (r"ip/__init__", r"spanning", ["C13"]),
+    (r"ip/__init__", r"parse_ip_network|IPNetwork.__init__|cidr_abbrev|IPNetwork.__(str|repr)__|IPRange.__init__", ["C03", "C02"]),
+    (r"ip/__init__", r"bits|bin|words|packed|reverse_dns|format|__str__|__repr__", ["C15", "C01"]),
+    (r"ip/__init__", r"netmask|hostmask|first|last|network|broadcast|prefixlen|\.ip$|\.cidr$|_set_value", ["C02"]),
+]
+MAXCHECKS = int(os.environ.get("MUT_MAXCHECKS", "5"))
+
+
+def order(m, props):
+    import re
+    first = []
+    for fr, fn, ps in PRIO:
+        if re.search(fr, m["file"]) and re.search(fn, m["func"]):
+            first += [p for p in ps if p in props and p not in first]
+    return (first + [p for p in sorted(props) if p not in first])[:MAXCHECKS]
+
+
 def stage2(nw=4, only=None):
     ms = {m["id"]: m for m in json.load(open(W + "/mutants.json"))}
     s1 = json.load(open(W + "/stage1.json"))
@@ -99,7 +128,7 @@ def stage2(nw=4, only=None):
             orig = open(p, "rb").read()
             M.apply(repo, m)
             verdict, ran = "survived", []
-            for pr in sorted(props):
+            for pr in order(m, props):
                 env = dict(os.environ, NV_REPO=repo, NV_NO_EVIDENCE="1")
                 t0 = time.time()
                 try:
@@ -116,6 +145,8 @@ def stage2(nw=4, only=None):
                     verdict = "check-error %s: %s" % (pr, o[-300:])
                     break
             open(p, "wb").write(orig)
+            if verdict == "survived" and len(props) > len(ran):
+                verdict = "survived (%d of %d reaching checks run)" % (len(ran), len(props))
             res[m["id"]] = {"verdict": verdict, "props": ran}
             json.dump(dict(res), open("%s/stage2.json.tmp%d" % (W, k), "w"))
             os.replace("%s/stage2.json.tmp%d" % (W, k), W + "/stage2.json")
